@@ -41,20 +41,28 @@ Refused(e) == e.op = "hset" /\ e.k[1] = "dsym" /\ e.res[1] = "err"
 (* ---- named deviation gofor-stale-binding (an open finding about the real code, used only  *)
 (* when it is listed in VERIF_DEVS).  The infix loop binds its targets with def/mdef in the   *)
 (* one scope of the whole loop; a name that holds a value of one type is not re-bound to a    *)
-(* value of another type, and the refusal is dropped (two targets) or ends the loop with an   *)
-(* error (one target).  So each target shows, at every position, the latest element up to     *)
-(* there that has the type of the first one.  The type of a key is that of its spelling at    *)
-(* its insertion: 'c' and 99 are one key but values of two types (chrs remembers which).      *)
+(* value of another type: the binding is refused and the refusal ends the loop with an error  *)
+(* (since "mdef reports a binding that is refused" for both forms; before, the two-target     *)
+(* form went on with the stale binding).  So the loop presents the elements before the first  *)
+(* key (two targets: key or value) whose type differs from the first one's -- recorded in the  *)
+(* event field "seen" -- and then fails.  The type of a key is that of its spelling at its     *)
+(* insertion: 'c' and 99 are one key but values of two types (chrs remembers which).          *)
 Spelled(k, cs) == IF k[1] = "int" /\ k[2] \in cs THEN <<"chr", k[2]>> ELSE k
-LastLike(xs, j) == CHOOSE m \in 1..j : xs[m][1] = xs[1][1] /\ \A q \in (m+1)..j : xs[q][1] # xs[1][1]
-Stale(xs) == [j \in 1..Len(xs) |-> xs[LastLike(xs, j)]]
-Mixed(xs) == \E j \in 1..Len(xs) : xs[j][1] # xs[1][1]
-DevGoFor(c, cs, o) ==
+FirstOdd(xs) == IF \E j \in 1..Len(xs) : xs[j][1] # xs[1][1]
+                THEN CHOOSE j \in 1..Len(xs) : xs[j][1] # xs[1][1] /\ \A q \in 1..(j-1) : xs[q][1] = xs[1][1]
+                ELSE Len(xs) + 1
+DevGoFor(c, cs, e) ==
     LET ks == [j \in 1..Len(c) |-> Spelled(c[j][1], cs)]
         vs == [j \in 1..Len(c) |-> c[j][2]]
-    IN CASE o.op = "rangego"  -> <<"pairs", [j \in 1..Len(c) |-> <<NK(Stale(ks)[j]), Stale(vs)[j]>>]>>
-         [] o.op = "rangego1" -> IF Mixed(ks) THEN Err ELSE <<"keyseq", KeysOf(c)>>
-         [] OTHER -> <<"none">>
+        fk == FirstOdd(ks)
+        fv == FirstOdd(vs)
+        m  == IF e.op = "rangego" /\ fv < fk THEN fv ELSE fk     \* the element at which the loop fails
+    IN /\ m <= Len(c)
+       /\ e.res[1] = "err"
+       /\ "seen" \in DOMAIN e
+       /\ IF e.op = "rangego"
+          THEN [j \in 1..Len(e.seen) |-> <<NK(e.seen[j][1]), e.seen[j][2]>>] = [j \in 1..(m-1) |-> <<c[j][1], c[j][2]>>]
+          ELSE [j \in 1..Len(e.seen) |-> NK(e.seen[j])] = [j \in 1..(m-1) |-> c[j][1]]
 NextChrs(c, cs, e) ==
     IF e.op = "hset" /\ IndexOf(c, e.k) = 0
     THEN IF UW(e.k)[1] = "chr" THEN cs \cup {UW(e.k)[2]}
@@ -71,7 +79,7 @@ TStep ==
            obs == NormRes(e, e.res)
            okay == ~Constrained(e, content) \/ obs = a.r
            dev == IF ~okay /\ e.op \in {"rangego", "rangego1"} /\ "gofor-stale-binding" \in TraceDevs
-                     /\ obs = DevGoFor(content, chrs, e)
+                     /\ DevGoFor(content, chrs, e)
                   THEN "gofor-stale-binding" ELSE ""
        IN IF okay \/ dev # ""
           THEN /\ content' = a.c /\ out' = a.r /\ kept' = a.k /\ pos' = pos + 1 /\ UNCHANGED <<ci, verdict>>
